@@ -198,9 +198,13 @@ impl SemanticState {
             let size = size.with_context(|| {
                 format!("failed to find `size` attribute for extern type `{extern_path}` in module `{path}`")
             })?;
-            let alignment = alignment.with_context(|| {
+            let alignment: usize = alignment.with_context(|| {
                 format!("failed to find `align` attribute for extern type `{extern_path}` in module `{path}`")
             })?;
+            anyhow::ensure!(
+                alignment != 0,
+                "the `align` attribute of extern type `{extern_path}` in module `{path}` must not be zero"
+            );
 
             let extern_path = path.join(extern_path.as_str().into());
 
